@@ -334,6 +334,9 @@ for n in ("single", "rel_rel", "nested_rel", "rel_nested", "root_root", "nested_
     c09("r5_weak_" + n, "R5", "weak-link type ref, scope kinds concrete (%s), ids and associations symbolic; "
         "recording Encoder" % n, "TypeRef::WeakLink encode (flags byte + scopes) vs format", kani_args=FS)
 
+c09("r5_gc_skip_encode", "R5", "GC or Skip block, id, len, start offset and end trim symbolic; recording Encoder",
+    "Block::encode / encode_with_offset / BlockSlice::encode for GC and Skip vs what decode_block reads", kani_args=FS)
+
 ASSUMPTIONS["C09"] = [
     "R6/R7/R8 decide the *encoder* halves of delete-set ranges, sticky indexes and sync messages against their "
     "formats (encoder calls through a recording Encoder); their decoder halves are covered for totality only (C10)",
